@@ -22,12 +22,12 @@ func Verif_C04_R1_UseCount() {
 	dev := &verifDevice{image: make([]byte, nblocks*sectors*S), sector: S, hi: nblocks * sectors * S}
 	pa := NewBlockDeviceBackedBlockAllocator(dev, verifPlainFactory{}, S, sectors, nblocks, "verif").(*blockDeviceBackedBlockAllocator)
 	type live struct {
-		b        Block
-		off      int64 // device offset in bytes
-		listRef  bool
-		readers  []buffer.Buffer
-		writers  []BlockPutWriter
-		holders  int
+		b       Block
+		off     int64 // device offset in bytes
+		listRef bool
+		readers []buffer.Buffer
+		writers []BlockPutWriter
+		holders int
 	}
 	var blocks []*live
 	steps := 4
